@@ -2,7 +2,7 @@ use c04::tree::{Case, Form, IdForm, Incoming, Item, Node, RngKind};
 use vcore::proptest::prelude::*;
 use vcore::Level;
 
-const RULE: &str = "a case is a span tree as data (<=24 span nodes, nesting depth <=6): every node has a form (attribute on sync fn / async fn, new_span! with Frame::call / Frame::enter / Frame::in_future, guard: parameter sync / async, when: parameter, ok_lvl/err_lvl Result-returning sync / async fn, and four hand-off forms where the frame returned by new_span! itself is moved to a fresh thread and entered there by call / in_fn / enter (guard completed there or back on the parent inside the frame) or is polled through in_future alternately on fresh threads and the awaiting thread), an enabled flag (disabled = rejected by the runtime filter through its module, or by `when`), and a body of child spans, emit! events, SpanCtxt::current checks, yields, thread hops (with or without a carried Frame::current, entered by call or in_future) and joins of async tasks polled by a generated schedule; optionally incoming trace/span ids are pushed before the root as typed values, lower/upper-case hex strings or integers; the rng is a non-repeating counter (or yields nothing). It is interpreted by fixed macro call sites on a private runtime and judged relationally from the recorded events. Non-trivial = span nesting depth >=3, or a disabled node with an enabled descendant, or an async join, or a thread hop, or incoming ids given as hex strings.";
+const RULE: &str = "a case is a span tree as data (<=24 span nodes, nesting depth <=6): every node has a form (attribute on sync fn / async fn, new_span! with Frame::call / Frame::enter / Frame::in_future, guard: parameter sync / async, when: parameter, ok_lvl/err_lvl Result-returning sync / async fn, and four hand-off forms where the frame returned by new_span! itself is moved to a fresh thread and entered there by call / in_fn / enter (guard completed there or back on the parent inside the frame) or is polled through in_future alternately on fresh threads and the awaiting thread), an enabled flag (disabled = rejected by the runtime filter through its module, or by `when`), and a body of child spans, emit! events, SpanCtxt::current checks, yields, thread hops (with or without a carried Frame::current, entered by call or in_future as the very first act of the fresh thread, which afterwards goes on with unrelated work of its own: checks, events, root spans) and joins of async tasks polled by a generated schedule; optionally incoming trace/span ids are pushed before the root as typed values, lower/upper-case hex strings or integers; the rng is a non-repeating counter (or yields nothing). It is interpreted by fixed macro call sites on a private runtime and judged relationally from the recorded events. Non-trivial = span nesting depth >=3, or a disabled node with an enabled descendant, or an async join, or a thread hop, or incoming ids given as hex strings.";
 
 const ASSUMPTIONS: [&str; 6] = [
     "the oracle never predicts which id the rng hands out: each enabled span's ids are read from its own span event (identified by a unique module name) and only the relations stated by the property are demanded",
@@ -38,6 +38,16 @@ fn leaf() -> impl Strategy<Value = Item> {
 
 /// Bodies by remaining depth: explicit recursion (not `prop_recursive`) so that the branching factor
 /// stays near 1 and deep chains are as likely as wide, shallow trees.
+/// What a worker thread goes on with after it left a carried frame: a small unrelated program, often
+/// starting a root span of its own.
+fn after_items() -> impl Strategy<Value = Vec<Item>> {
+    let small = prop_oneof![
+        2 => leaf(),
+        3 => (form(), prop::bool::weighted(0.85), prop::collection::vec(leaf(), 0..3)).prop_map(|(form, enabled, items)| Item::Span(Node { form, enabled, items, after: Vec::new() })),
+    ];
+    prop_oneof![2 => Just(Vec::new()), 3 => prop::collection::vec(small, 1..3)]
+}
+
 fn body(depth_left: u32) -> BoxedStrategy<Vec<Item>> {
     if depth_left == 0 {
         return prop::collection::vec(leaf(), 0..3).boxed();
@@ -45,8 +55,8 @@ fn body(depth_left: u32) -> BoxedStrategy<Vec<Item>> {
     let inner = body(depth_left - 1);
     let item = prop_oneof![
         5 => leaf(),
-        8 => (form(), prop::bool::weighted(0.75), inner.clone()).prop_map(|(form, enabled, items)| Item::Span(Node { form, enabled, items })),
-        1 => (prop::bool::weighted(0.7), any::<bool>(), inner.clone()).prop_map(|(carry, fut, items)| Item::Hop { carry, fut, items }),
+        8 => (form(), prop::bool::weighted(0.75), inner.clone(), after_items()).prop_map(|(form, enabled, items, after)| Item::Span(Node { after: if form.is_sync_handoff() { after } else { Vec::new() }, form, enabled, items })),
+        1 => (prop::bool::weighted(0.7), any::<bool>(), inner.clone(), after_items()).prop_map(|(carry, fut, items, after)| Item::Hop { carry, fut, items, after }),
         1 => (any::<bool>(), prop::bool::weighted(0.4), prop::collection::vec(inner, 1..4), prop::collection::vec(0u8..16, 0..10))
             .prop_map(|(carry, migrate, tasks, schedule)| Item::Join { carry, migrate, tasks, schedule }),
     ];
@@ -63,9 +73,13 @@ fn limit(items: &mut Vec<Item>, budget: &mut usize, depth: usize) {
                 } else {
                     *budget -= 1;
                     limit(&mut n.items, budget, depth + 1);
+                    limit(&mut n.after, budget, 0);
                 }
             }
-            Item::Hop { items, .. } => limit(items, budget, depth),
+            Item::Hop { items, after, .. } => {
+                limit(items, budget, depth);
+                limit(after, budget, 0);
+            }
             Item::Join { tasks, .. } => {
                 for t in tasks {
                     limit(t, budget, depth)
@@ -121,6 +135,7 @@ fn main() {
         s.require("async-join-polls-migrate-threads", 50);
         s.require("thread-hop-carried-frame", 100);
         s.require("integer-ids", 100);
+        s.require("worker-thread-root-span-after-carried-frame", 100);
         s.require("own-frame-handoff-disabled-with-descendants", 100);
         s.require("own-frame-handoff-enabled-with-descendants", 100);
         s.require("empty-rng", 50);
